@@ -151,7 +151,9 @@ class MelodyDur(Stream):
         two = mel + mel
         return {"dur": F(mel.duration), "onsets": [F(t) for t in mel.get_onset_times()],
                 "aug": [F(x.duration) for x in mel.augment(F(case["k"])).notes], "set": sd,
-                "concat": F(two.duration), "repeat": F((mel * 3).duration), "stored": [F(x.duration) for x in mel.notes]}
+                "concat": F(two.duration), "repeat": F((mel * 3).duration), "stored": [F(x.duration) for x in mel.notes],
+                "pieces": [[F(mel[i].duration) for i in range(len(mel.notes))], F(mel[1:].duration), F(Melody(mel.notes[0]).duration),
+                           F((mel * 0).duration), F((mel * 0 + mel).duration)]}
 
     def term(self, case, r):
         # the model starts from the stored durations (Note.__init__ already applied)
@@ -168,6 +170,8 @@ class MelodyDur(Stream):
             return {"sig": "onsets-not-partial-sums", "msg": str(r["onsets"])}
         if r["concat"] != 2 * sum(m) or r["repeat"] != 3 * sum(m):
             return {"sig": "concat-repeat-duration", "msg": f"{r['concat']} {r['repeat']}"}
+        if r["pieces"] != [m, sum(m[1:]), m[0], 0, sum(m)]:
+            return {"sig": "melody-pieces-duration", "msg": f"[melody[i]], melody[1:], Melody(first note), melody * 0, melody * 0 + melody last {r['pieces']}; the notes last {m}"}
         if all(fits(x * k) for x in m) and r["aug"] != [x * k for x in m]:
             return {"sig": "melody-augment-not-exact", "msg": str(r["aug"])}
         if d == 0 and (r["set"] is None or any(x != 0 for x in r["set"]) or len(r["set"]) != len(m)):
@@ -215,6 +219,7 @@ class ScoreDur(Stream):
         sc = Score(chords)
         out = {"dur": F(sc.duration), "chords": [F(c.duration) for c in sc.chords], "concat": F((sc + sc).duration),
                "repeat": F((sc * case["k"]).duration), "chord_plus": F((chords[0] + chords[-1]).duration),
+               "times0": [F(x.duration) if x is not None else None for x in (sc * 0, chords[0] * 0, sc * 0 + sc)],
                "chord_mul": F((chords[0] * case["k"]).duration)}
         # every note of a chord / score is multiplied by k, whatever the lengths of the parts
         k = F(case["k"], 2)
@@ -245,6 +250,8 @@ class ScoreDur(Stream):
         if r["concat"] != 2 * sum(cd) or r["repeat"] != case["k"] * sum(cd) or r["chord_plus"] != cd[0] + cd[-1] \
                 or r["chord_mul"] != case["k"] * cd[0]:
             return {"sig": "score-concat-repeat-duration", "msg": str(r)}
+        if r["times0"] != [0, 0, sum(cd)]:
+            return {"sig": "repeat-zero-times", "msg": f"score * 0, chord * 0, score * 0 + score last {r['times0']}, expected [0, 0, {sum(cd)}]"}
         k = F(case["k"], 2)
         want = [[[(F(x) * k).limit_denominator(1000) for x in p] for p in parts] for parts in case["s"]]      # 1/1000 resolution of durations
         # a chord without parts has no note to multiply (its augment builds a rest): not judged
